@@ -11,6 +11,7 @@ EXTENDS Integers, Sequences, FiniteSets, TLC, Json
 LA == <<97>>
 LZ == <<122>>
 LSP == <<97, 58, 44, 92, 32, 200>>        \* "a:,\ " + byte 200: every character class the quoting must handle
+LUP == <<65, 98>>                          \* "Ab": letter case of a target must survive (owner names are case-folded in keys only)
 LCOL == <<97, 58, 98>>                     \* "a:b": only the legacy separator, nothing else that forces quoting
 IP4 == <<0, 0, 0, 0, 0, 0, 0, 0, 0, 0, 255, 255, 192, 0, 2, 1>>
 IP6 == <<32, 1, 13, 184, 0, 0, 0, 0, 0, 0, 0, 0, 0, 0, 0, 255>>
@@ -23,7 +24,7 @@ Ln(t, dom, wild, loc, ttl, ipf, x, xshort, y, num, rd) ==
 Owners == {<<LA, LZ>>, <<LSP, LZ>>, <<LCOL, LZ>>}
 Locs == {0, 258}
 Ttls == {-1, 0, 60}
-Targets == {[x |-> <<LA>>, s |-> TRUE], [x |-> <<LA, LZ>>, s |-> FALSE], [x |-> <<LSP, LA, LZ>>, s |-> FALSE], [x |-> <<LCOL, LZ>>, s |-> FALSE]}
+Targets == {[x |-> <<LA>>, s |-> TRUE], [x |-> <<LA, LZ>>, s |-> FALSE], [x |-> <<LSP, LA, LZ>>, s |-> FALSE], [x |-> <<LCOL, LZ>>, s |-> FALSE], [x |-> <<LUP, LZ>>, s |-> FALSE], [x |-> <<LUP>>, s |-> TRUE]}
 
 AllLines ==
   {Ln("Z", o, FALSE, lo, ttl, 0, <<LA, LZ>>, FALSE, <<LSP, LZ>>, n, <<>>) :
